@@ -233,6 +233,37 @@ func c18(r *Run) {
 			r.missing("C18.R4", "reprocess:sequence", "VerifyBlock / AcceptBlock / notifications not found in reprocessFromOutputToInput")
 		}
 	}
+
+	// R6: the accept pipeline commits state before notifying subscribers, so a crash between the two is repaired only by
+	// the unconditional start-up notification of the last accepted block
+	r.rule("C18.R6", "K1", "start-up re-delivers the last accepted block to the accepted subscribers on every successful path (at-least-once across a crash)", 2)
+	sini := r.fn(w, "C18.R6", nmSVM+"Initialize")
+	if sini != nil {
+		na := findEffects(sini, "call (*snow.StatefulBlock).notifyAccepted(p0.lastAcceptedBlock, *)")
+		if len(na) == 1 {
+			extra := ""
+			for _, c := range na[0].Conds() {
+				if !(strings.HasSuffix(c, " == nil") || strings.HasPrefix(c, "nil == ")) {
+					extra = c
+				}
+			}
+			r.check(extra == "", "C18.R6", "Initialize:last-accepted-notified-unconditionally", r.at(w, na[0].Ins), "conditioned only on earlier steps having succeeded",
+				"the start-up notification of the last accepted block is conditional ("+extra+"): a block whose state was committed but whose notification was cut off by a crash is never delivered")
+			r.failureLeadsToErrorReturn(w, "C18.R6", "Initialize:notification-error-returned", na[0].Ins.(ssa.CallInstruction))
+			// no successful return of Initialize without it
+			okk := true
+			for _, o := range returnOutcomes(sini) {
+				if o.isPotentialSuccess() {
+					if found, _ := pathExists(point{sini.Blocks[0], 0}, isInstr(o.Ret), isInstr(na[0].Ins), nil); found {
+						okk = false
+					}
+				}
+			}
+			r.check(okk, "C18.R6", "Initialize:no-success-without-notification", r.at(w, na[0].Ins), "", "Initialize can succeed without notifying the last accepted block")
+		} else {
+			r.missing("C18.R6", "Initialize:last-accepted-notified", fmt.Sprintf("expected one start-up notifyAccepted(lastAcceptedBlock), found %d", len(na)))
+		}
+	}
 }
 
 // ----------------------------------------------------------------------------- C19
